@@ -7,6 +7,7 @@ import (
 	"fmt"
 	"os"
 	"runtime/debug"
+	"strings"
 
 	"github.com/matryer/moq/pkg/moq"
 )
@@ -104,13 +105,31 @@ func runOracles(job JobCfg, res *Result) {
 			res.Checks["oracle-panic"] = fmt.Sprintf("%v\n%s", r, debug.Stack())
 		}
 	}()
+	if noop, ok := res.Runs["noop"]; ok && noop.Err == "" && noop.Panic == "" {
+		if d := checkImportAliases(noop.Out); d != "" {
+			res.Checks["C11"] = d
+		}
+	}
 	def, ok := res.Runs[""]
 	if !ok || def.Err != "" || def.Panic != "" {
+		if ok && strings.HasPrefix(def.Err, "go/format") {
+			// moq refuses its own output: for a generic interface the self-check line is the usual culprit
+			si := loadFull(job.Dir)
+			if si.err == nil && anyGeneric(job, si.types) {
+				res.Checks["C09"] = def.Err
+			}
+		}
 		return
 	}
 	c, diag := typeCheck(job, def.Out, "")
 	if diag != "" {
 		res.Checks["C01"] = diag
+		if c != nil {
+			si := loadFull(job.Dir)
+			for k, v := range classify(c, anyGeneric(job, si.types)) {
+				res.Checks[k] = v
+			}
+		}
 	}
 	if c != nil && c.pkg != nil && len(c.errs) == 0 {
 		for k, v := range checkImplements(job, c) {
